@@ -140,7 +140,7 @@ def check(sc):
 
 def search(seed, budget):
     rnd = random.Random(seed)
-    n = 150 if budget == "quick" else 3000
+    n = 500 if budget == "quick" else 4000
     seen = set()
     for i in range(n):
         sc = gen(rnd)
